@@ -1,8 +1,9 @@
 """C26 The fast Motor device commands exactly its limited control law
 
-domain : a FastSyncGroup with the bundled Motor on an EL7041-like terminal
-         (16 bit velocity output, 32 bit signed position input, two limit
-         switch bits, enable bit); all inputs from the boundary pool under the
+domain : a FastSyncGroup with one or two bundled Motors, each on its own
+         EL7041-like terminal of one type (16 bit velocity output, 32 or 64
+         bit signed position input, two limit switch bits, enable bit); all
+         inputs from the boundary pool under the
          stated preconditions: velocity limit within int16, previous velocity
          within the limit, desired velocity within 64 bits.
 oracle : exact reference of the stated law in Z:
@@ -39,8 +40,8 @@ ASSUMPTIONS = [
     "the quantifier's universal quantification over bit-vectors is replaced "
     "by boundary-biased sampling",
     "DeviceVars of the Motor are unsigned 32 bit (their declared default "
-    "format), the encoder input is signed 32 bit, the velocity output signed "
-    "16 bit",
+    "format), the encoder input is signed 32 or 64 bit, the velocity "
+    "output signed 16 bit",
     "the group program runs with wkc_errors != 0 (output enabled)",
 ]
 EXAMPLES = {"quick": 300, "thorough": 10000}
@@ -52,6 +53,19 @@ B32 = [0, 1, 2, 2**15 - 1, 2**15, 2**16 - 1, 2**16, 2**31 - 1, 2**31,
 
 @st.composite
 def case_strategy(draw):
+    case = draw(motor_inputs())
+    case["fmmu"] = draw(st.booleans())
+    case["seed"] = draw(st.integers(0, 255))
+    # the terminal declares its variables by packet position or by the
+    # object they are mapped from
+    case["via"] = draw(st.sampled_from(["packet", "process"]))
+    # a second motor on a second terminal of the same type, own inputs
+    case["other"] = draw(st.none() | motor_inputs())
+    return case
+
+
+@st.composite
+def motor_inputs(draw):
     limit = draw(st.sampled_from([1, 500, 1000, 32767, 32766, 100])
                  | st.integers(0, 32767))
     prev = draw(st.sampled_from([0, limit, -limit, limit // 2, 1, -1])
@@ -72,11 +86,20 @@ def case_strategy(draw):
     target = max(0, min(2**32 - 1, target))
     acc = draw(st.sampled_from([0, 1, 10, 100, 1000, 32767, 65535, 200000,
                                 2**31, 2**32 - 1]) | st.integers(0, 70000))
+    enc = draw(st.sampled_from(["i", "i", "q"]))
+    if enc == "q" and draw(st.booleans()):
+        # a 64 bit encoder far away: the desired velocity comes close to
+        # the ends of the 64 bit range (within the acceleration limit of it)
+        gain = draw(st.sampled_from([1, 1, 2, 3]))
+        edge = draw(st.sampled_from([2**63 - 1, -2**63]))
+        off = draw(st.sampled_from([0, 1, acc, acc + 1, max(acc - 1, 0),
+                                    2 * acc, 70000]))
+        d = edge - off if edge > 0 else edge + off
+        position = max(-2**63, min(2**63 - 1, target - d // gain))
     return {"target": target, "position": position, "gain": gain,
-            "acc": acc, "limit": limit, "prev": prev,
+            "acc": acc, "limit": limit, "prev": prev, "enc": enc,
             "low": draw(st.booleans()), "high": draw(st.booleans()),
-            "enable": draw(st.sampled_from([0, 1, 1, 2])),
-            "fmmu": draw(st.booleans()), "seed": draw(st.integers(0, 255))}
+            "enable": draw(st.sampled_from([0, 1, 1, 2]))}
 
 
 def strategy(tier):
@@ -114,19 +137,39 @@ GROUP = {
 }
 
 
+def group_spec(case, motors):
+    term = dict(GROUP["terminals"][0], use_fmmu=case["fmmu"])
+    terms, devs = [], []
+    for k, m in enumerate(motors):
+        via = case.get("via", "packet")
+        t = dict(term, position=1001 + k,
+                 **{"in": [dict(v, via=via, size=m.get("enc", "i")
+                                if v["name"] == "enc" else v["size"])
+                           for v in term["in"]],
+                    "out": [dict(v, via=via) for v in term["out"]]})
+        terms.append(t)
+        devs.append({"type": "Motor", "links": {
+            key: [k, name] for key, (_, name)
+            in GROUP["devices"][0]["links"].items()}})
+    return {"terminals": terms, "devices": devs}
+
+
 def run_case(case):
-    d, want, acc_active, lim_active, sw = reference(case)
-    if not -2**63 <= d < 2**63:
+    motors = [case] + ([case["other"]] if case.get("other") else [])
+    refs = [reference(m) for m in motors]
+    if any(not -2**63 <= r[0] < 2**63 for r in refs):
         return dict(ok=True, nontrivial=False, judged=False,
                     classes=["unjudged:d-exceeds-64-bit"])
-    spec = {"terminals": [dict(GROUP["terminals"][0],
-                               use_fmmu=case["fmmu"])],
-            "devices": GROUP["devices"]}
+    spec = group_spec(case, motors)
+    d, want, acc_active, lim_active, sw = refs[0]
     rng = "d16" if -2**15 <= d < 2**15 else \
         "d32" if -2**31 <= d < 2**31 else "d64"
     classes = [rng, "acc-clamp" if acc_active else "acc-free",
                "limit-clamp" if lim_active else "limit-free",
-               "switch-stop" if sw else "no-switch-stop"]
+               "switch-stop" if sw else "no-switch-stop",
+               f"encoder={case.get('enc', 'i')}", f"motors={len(motors)}"]
+    if abs(d) >= 2**63 - 1 - max(case["acc"], 70000):
+        classes.append("d-near-64-bit-end")
     with kernel.tracking() as tracker:
         try:
             ec, terms, devs, sg = groups.build_group(spec, "fast")
@@ -134,31 +177,45 @@ def run_case(case):
         except AssembleError as e:
             return dict(ok=False, nontrivial=True, classes=classes,
                         what=f"the Motor group does not assemble: {e}")
+        except HarnessError:
+            raise
+        except Exception as e:
+            return dict(ok=False, nontrivial=True, classes=classes,
+                        what=f"building a group of {len(motors)} Motor(s) on "
+                             f"terminals of one type raised "
+                             f"{type(e).__name__}: {e}")
         if loaded.status != "ok":
             return dict(ok=False, nontrivial=True, classes=classes,
                         what=f"the Motor group program is refused: "
                              f"{loaded.status} {loaded.error}")
-        t, m = terms[0], devs[0]
         size = max(46, sg.packet.size)
         frame = bytearray((case["seed"] + 17 * i) & 0xff
                           for i in range(size))
-        ipos = sg.pdo_assign[t][groups.SyncManager.IN]
-        opos = sg.pdo_assign[t][groups.SyncManager.OUT]
-        lay = t.layout
-        b = frame[ipos + lay["in"]["low"]] & ~0x18
-        frame[ipos + lay["in"]["low"]] = b | (8 if case["low"] else 0) \
-            | (16 if case["high"] else 0)
-        struct.pack_into("<i", frame, ipos + lay["in"]["enc"],
-                         case["position"])
-        struct.pack_into("<h", frame, opos + lay["out"]["vel"], case["prev"])
         init = bytearray(type(sg).__dict__["properties"].size)
         struct.pack_into("<I", init, sg.__dict__["wkc_errors"], 1)
-        for name, val in (("set_enable", case["enable"]),
-                          ("max_velocity", case["limit"]),
-                          ("max_acceleration", case["acc"]),
-                          ("target", case["target"]),
-                          ("proportional", case["gain"])):
-            struct.pack_into("<I", init, m.__dict__[name], val)
+        where = []
+        for t, m, c in zip(terms, devs, motors):
+            if t not in sg.pdo_assign:
+                return dict(ok=False, nontrivial=True, classes=classes,
+                            what=f"terminal {t.name} of a Motor is not part "
+                                 f"of the group's frame ({len(motors)} "
+                                 f"motors on terminals of one type)")
+            ipos = sg.pdo_assign[t][groups.SyncManager.IN]
+            opos = sg.pdo_assign[t][groups.SyncManager.OUT]
+            lay = t.layout
+            b = frame[ipos + lay["in"]["low"]] & ~0x18
+            frame[ipos + lay["in"]["low"]] = b | (8 if c["low"] else 0) \
+                | (16 if c["high"] else 0)
+            struct.pack_into("<" + c.get("enc", "i"), frame,
+                             ipos + lay["in"]["enc"], c["position"])
+            struct.pack_into("<h", frame, opos + lay["out"]["vel"], c["prev"])
+            for name, val in (("set_enable", c["enable"]),
+                              ("max_velocity", c["limit"]),
+                              ("max_acceleration", c["acc"]),
+                              ("target", c["target"]),
+                              ("proportional", c["gain"])):
+                struct.pack_into("<I", init, m.__dict__[name], val)
+            where.append((opos, lay))
         fd = dsl.array_fd(tracker, len(init))
         pkt = bytearray(14) + frame
         obs = dsl.run_both(loaded, tracker, pkt,
@@ -167,37 +224,41 @@ def run_case(case):
             return dict(ok=False, nontrivial=True, classes=classes,
                         what=f"generated code faults: {obs.fault}")
         after = obs.packet[14:]
-        got, = struct.unpack_from("<h", after, opos + lay["out"]["vel"])
-        desc = (f"target={case['target']} position={case['position']} "
-                f"gain={case['gain']} acc={case['acc']} limit={case['limit']}"
-                f" prev={case['prev']} low={case['low']} high={case['high']}"
-                f": desired d={d}")
-        facts = []
-        if rng != "d16":
-            facts.append("desired-exceeds-int16")
-        v_acc = min(max(d, case["prev"] - case["acc"]),
-                    case["prev"] + case["acc"])
-        if not -2**15 <= v_acc < 2**15:
-            facts.append("acc-limited-exceeds-int16")
-        if got != want:
-            return dict(ok=False, nontrivial=True, classes=classes,
-                        facts=facts, bucket=(facts, classes),
-                        what=f"{desc}: velocity output {got}, the law gives "
-                             f"{want}")
-        en = bool(after[opos + lay["out"]["en"]] & 1)
-        if en != bool(case["enable"]):
-            return dict(ok=False, nontrivial=True, classes=classes,
-                        what=f"{desc}: enable bit {en}, set_enable "
-                             f"{case['enable']}")
-        # consequences (implied by the law, checked for the evidence)
-        assert abs(got) <= case["limit"]
-        assert not (case["low"] and got < 0) and not (case["high"]
-                                                      and got > 0)
+        for k, (c, ref, (opos, lay)) in enumerate(zip(motors, refs, where)):
+            d, want = ref[0], ref[1]
+            got, = struct.unpack_from("<h", after, opos + lay["out"]["vel"])
+            desc = (f"motor {k + 1} of {len(motors)}: target={c['target']} "
+                    f"position={c['position']} ({c.get('enc', 'i')}) "
+                    f"gain={c['gain']} acc={c['acc']} limit={c['limit']}"
+                    f" prev={c['prev']} low={c['low']} high={c['high']}"
+                    f": desired d={d}")
+            facts = []
+            if not -2**15 <= d < 2**15:
+                facts.append("desired-exceeds-int16")
+            v_acc = min(max(d, c["prev"] - c["acc"]), c["prev"] + c["acc"])
+            if not -2**15 <= v_acc < 2**15:
+                facts.append("acc-limited-exceeds-int16")
+            if got != want:
+                return dict(ok=False, nontrivial=True, classes=classes,
+                            facts=facts, bucket=(facts, classes),
+                            what=f"{desc}: velocity output {got}, the law "
+                                 f"gives {want}")
+            en = bool(after[opos + lay["out"]["en"]] & 1)
+            if en != bool(c["enable"]):
+                return dict(ok=False, nontrivial=True, classes=classes,
+                            what=f"{desc}: enable bit {en}, set_enable "
+                                 f"{c['enable']}")
+            # consequences (implied by the law, checked for the evidence)
+            assert abs(got) <= c["limit"]
+            assert not (c["low"] and got < 0) and not (c["high"] and got > 0)
+    d, want = refs[0][0], refs[0][1]
     return dict(ok=True, nontrivial=acc_active or lim_active or sw
                 or rng != "d16",
                 key=repr((rng, acc_active, lim_active, sw, d > 0, d == 0,
                           case["low"], case["high"], case["fmmu"],
-                          case["acc"] > 32767, case["gain"] > 1)),
+                          case["acc"] > 32767, case["gain"] > 1,
+                          case.get("enc", "i"), len(motors),
+                          "d-near-64-bit-end" in classes)),
                 classes=classes,
                 summary={"d": d, "v": want})
 
